@@ -240,6 +240,7 @@ Record Rel (d : wdecl) (st : rstate) (sst : sstate) : Prop := {
   r_iss : fst <$> s_issued sst = issued st /\ s_wissued sst = [issued st];
   r_ids : forall e, e ∈ issued st -> snd e <> 0%N /\ exists a ad, wd_archs d !! a = Some ad /\ da_id ad = key_arch_id (fst e);
   r_drop : drop_in st = 0%N;
+  r_arch : forall i e a0, s_issued sst !! i = Some (e, a0) -> exists ad, wd_archs d !! a0 = Some ad /\ da_id ad = key_arch_id (fst e);
 }.
 
 (** The belief the probe theorems of OracleFacts need follows from the relation. *)
@@ -296,12 +297,15 @@ Qed.
 
 (* ---------------------------------------------------------------- the core language *)
 
+Definition wpath_direct (p : wpath) : bool := match p with WFind | WFindB => false | _ => true end.
+
 Definition l0_op (d : wdecl) (o : op) : bool :=
   match o with
   | OCreate _ _ | OCreateW _ _ => true
   | ODestroy (LArch b) KEnt TAny (RIssued _) | OProbe (LArch b) KEnt TAny (RIssued _) => b <? length (wd_archs d)
   | OProbe LWorld KEnt TAny (RIssued _) | ODestroy LWorld KEnt TAny (RIssued _) | OToDirect LWorld KEnt TAny (RIssued _) => true
   | OToDirect (LArch b) KEnt TAny (RIssued _) => b <? length (wd_archs d)
+  | OWrite p _ KEnt TAny (RIssued _) _ _ => wpath_direct p
   | _ => false
   end.
 
@@ -432,6 +436,8 @@ Proof.
         -- apply (r_ids _ _ _ HR e He).
         -- apply elem_of_list_singleton in He as ->. split; [done|]. by exists a, ad.
       * apply (r_drop _ _ _ HR).
+      * intros j e0 b0 Hl. cbn in Hl. apply lookup_app_Some in Hl as [Hl|[_ Hl]]; [by apply (r_arch _ _ _ HR j)|].
+        apply list_lookup_singleton_Some in Hl as [_ [= <- <-]]. by exists ad.
   - (* capacity limit *)
     destruct Hp as (-> & -> & Hmax).
     unfold after_drop in Hinv |- *. cbn [drop_in set_world] in Hinv |- *. rewrite (r_drop _ _ _ HR) in Hinv |- *.
@@ -445,6 +451,7 @@ Proof.
       * exists w, sw. split_and!; [cbn; by rewrite Hw, Hc0, Hupd|done|].
         intros a2 ad2 Had2. destruct (Harch a2 ad2 Had2) as (s2 & x2 & ? & ? & ? & _). by exists s2, x2.
       * apply (r_ids _ _ _ HR).
+      * apply (r_arch _ _ _ HR).
 Qed.
 
 Lemma rel_step_createw cfg d qs st sst a v : wrapping cfg = false -> wf_decl d -> NoDup (da_id <$> wd_archs d) -> Rel d st sst ->
@@ -531,6 +538,8 @@ Proof.
         -- apply (r_ids _ _ _ HR e He).
         -- apply elem_of_list_singleton in He as ->. split; [done|]. by exists a, ad.
       * apply (r_drop _ _ _ HR).
+      * intros j e0 b0 Hl. cbn in Hl. apply lookup_app_Some in Hl as [Hl|[_ Hl]]; [by apply (r_arch _ _ _ HR j)|].
+        apply list_lookup_singleton_Some in Hl as [_ [= <- <-]]. by exists ad.
   - (* refused: no room *)
     destruct Hp as (-> & Hnlt).
     unfold after_drop in Hinv |- *. cbn [drop_in set_world] in Hinv |- *. rewrite (r_drop _ _ _ HR) in Hinv |- *.
@@ -546,6 +555,7 @@ Proof.
       * exists w, sw. split_and!; [cbn; by rewrite Hw, Hc0, Hupd|done|].
         intros a2 ad2 Had2. destruct (Harch a2 ad2 Had2) as (s2 & x2 & ? & ? & ? & _). by exists s2, x2.
       * apply (r_ids _ _ _ HR).
+      * apply (r_arch _ _ _ HR).
 Qed.
 
 Lemma step_destroy_unfold cfg d qs st w i e b bd s : cur_world st = Some w -> issued st !! i = Some e -> snd e <> 0%N ->
@@ -652,6 +662,7 @@ Proof.
            exists s2, x2. unfold upd.
            split_and!; [etrans; [apply list_lookup_insert_ne; congruence|exact Hs2]|etrans; [apply list_lookup_insert_ne; congruence|exact Hx2]|done].
       * apply (r_ids _ _ _ HR).
+      * apply (r_arch _ _ _ HR).
   - (* absent *)
     destruct Hds as (-> & Hnin). cbn [ret] in Hinv |- *.
     exists st, [0%N], sst. split_and!; [done|done| |done].
@@ -671,6 +682,7 @@ Proof.
         intros a2 ad2 Had2. destruct (Harch a2 ad2 Had2) as (s2 & x2 & ? & ? & ? & _). by exists s2, x2.
       * apply (r_ids _ _ _ HR).
       * apply (r_drop _ _ _ HR).
+      * apply (r_arch _ _ _ HR).
 Qed.
 
 Lemma step_destroy_world_unfold cfg d qs st w i e b bd s : cur_world st = Some w -> issued st !! i = Some e -> snd e <> 0%N ->
@@ -764,6 +776,7 @@ Proof.
            exists s2, x2. unfold upd.
            split_and!; [etrans; [apply list_lookup_insert_ne; congruence|exact Hs2]|etrans; [apply list_lookup_insert_ne; congruence|exact Hx2]|done].
       * apply (r_ids _ _ _ HR).
+      * apply (r_arch _ _ _ HR).
   - (* absent *)
     destruct Hds as (-> & Hnin). cbn [ret] in Hinv |- *.
     exists st, [0%N], sst. split_and!; [done|done| |done].
@@ -783,6 +796,7 @@ Proof.
         intros a2 ad2 Had2. destruct (Harch a2 ad2 Had2) as (s2 & x2 & ? & ? & ? & _). by exists s2, x2.
       * apply (r_ids _ _ _ HR).
       * apply (r_drop _ _ _ HR).
+      * apply (r_arch _ _ _ HR).
 Qed.
 
 
@@ -814,7 +828,7 @@ Qed.
 
 Lemma rel_add_directs d st sst ds dd infos : Rel d st sst -> RInv d (add_directs st ds) -> Rel d (add_directs st ds) (add_direct sst dd infos).
 Proof.
-  intros HR Hinv. destruct HR as [R1 R2 R3 R4 R5 R6]. constructor; try done.
+  intros HR Hinv. destruct HR as [R1 R2 R3 R4 R5 R6 R7]. constructor; try done.
 Qed.
 
 Lemma rel_step_todirect cfg d qs st sst l i : wf_decl d -> NoDup (da_id <$> wd_archs d) -> Rel d st sst ->
@@ -893,6 +907,160 @@ Proof.
     rewrite Hexp by (by left). by rewrite (a_b2 _ _ _ HA e Hnin).
 Qed.
 
+(* ---------------------------------------------------------------- writes *)
+
+Definition upd_sent (h : handle) (col : nat) (v : N) (e : sent) : sent :=
+  if heqb (se_h e) h then SE (se_h e) (<[col := v]> (se_vals e)) else e.
+
+Lemma upd_sent_h h col v e : se_h (upd_sent h col v e) = se_h e.
+Proof. unfold upd_sent. by destruct (heqb (se_h e) h). Qed.
+
+Lemma find_sent_upd e' h col v l : find_sent e' (upd_sent h col v <$> l) =
+  match find_sent e' l with
+  | Some se => Some (if decide (e' = h) then SE (se_h se) (<[col := v]> (se_vals se)) else se)
+  | None => None
+  end.
+Proof.
+  induction l as [|x l IH]; [done|]. rewrite fmap_cons, !find_sent_cons, upd_sent_h.
+  destruct (decide (se_h x = e')) as [Hx|Hx]; [|exact IH].
+  f_equal. unfold upd_sent. subst e'. destruct (decide (se_h x = h)) as [->|Hne].
+  - assert (heqb h h = true) as -> by (by apply heqb_eq). done.
+  - destruct (heqb (se_h x) h) eqn:E; [apply heqb_eq in E; done|done].
+Qed.
+
+Lemma handles_upd h col v l : handles_of (upd_sent h col v <$> l) = handles_of l.
+Proof. unfold handles_of. rewrite <- list_fmap_compose. apply list_fmap_ext. intros ? x _. apply upd_sent_h. Qed.
+
+(** What a write of column [col] of the entity at dense position [d] does to the set of rows. *)
+Lemma write_rows s col d v s' e row : Inv s -> write_col s col d v = Some s' -> d < len s -> abs_at s d = Some (e, row) ->
+  forall e' r', has_row s' e' r' <-> (e' <> e /\ has_row s e' r') \/ (e' = e /\ r' = <[col := v]> row).
+Proof.
+  intros HI Hw Hd Ha e' r'. destruct (write_col_spec s col d v s' Hw) as (_ & _ & He & _ & Hl & _).
+  assert (Hed : ents s !! d = Some e) by (unfold abs_at in Ha; destruct (ents s !! d); [|done]; destruct (row_at _ _); [|done]; by injection Ha as -> _).
+  split.
+  - intros (i & Hi & Hai). rewrite (write_col_abs s col d v s' i Hw) in Hai. rewrite Hl in Hi.
+    destruct (abs_at s i) as [[e0 r0]|] eqn:Hs0; [|done]. injection Hai as <- <-. case_decide as Hid.
+    + subst i. rewrite Ha in Hs0. injection Hs0 as <- <-. by right.
+    + left. split; [|by exists i]. intros ->.
+      assert (Hei : ents s !! i = Some e) by (unfold abs_at in Hs0; destruct (ents s !! i); [|done]; destruct (row_at _ _); [|done]; by injection Hs0 as -> _).
+      apply Hid. eapply NoDup_lookup; [apply (pass_handles_distinct s HI)|done|done].
+  - intros [[Hne (i & Hi & Hai)]|[-> ->]].
+    + exists i. rewrite Hl. split; [done|]. rewrite (write_col_abs s col d v s' i Hw), Hai. rewrite decide_False; [done|].
+      intros ->. rewrite Ha in Hai. by injection Hai as <- _.
+    + exists d. rewrite Hl. split; [done|]. rewrite (write_col_abs s col d v s' d Hw), Ha. by rewrite decide_True.
+Qed.
+
+Lemma rel_step_write cfg d qs st sst p b i c v : wf_decl d -> NoDup (da_id <$> wd_archs d) -> Rel d st sst -> wpath_direct p = true ->
+  exists st' obs sst', step cfg d qs st (OWrite p b KEnt TAny (RIssued i) c v) = Some (st', obs) /\ obs <> [254%N] /\
+    spec_step cfg d qs sst (OWrite p b KEnt TAny (RIssued i) c v) obs = inr sst' /\ Rel d st' sst'.
+Proof.
+  intros Hwf Hnd HR Hp. destruct (rel_cur d st sst HR) as (w & sw & Hw & Hsw & Hcw & Hcsw & HWI & Harch).
+  destruct (r_cur _ _ _ HR) as [Hc0 Hsc0]. destruct (r_iss _ _ _ HR) as [Hfi Hwi].
+  pose proof (step_inv cfg d qs st (OWrite p b KEnt TAny (RIssued i) c v) Hwf I (r_inv _ _ _ HR)) as Hinv.
+  destruct (issued st !! i) as [e|] eqn:Hi.
+  2: { exists st, [8%N], sst. split_and!; [|done|cbn [spec_step]; rewrite Hcsw|done].
+       - cbn [step]. rewrite Hcw. cbn [get_href]. by rewrite Hi.
+       - assert (Hl : (fst <$> s_issued sst) !! i = None) by (by rewrite Hfi). rewrite list_lookup_fmap in Hl.
+         destruct (s_issued sst !! i); [done|]. done. }
+  destruct (rel_issued d st sst w sw i e Hnd HR Hw Hsw Hi) as (Hv & Hk & (a0 & Hsi) & a & ad & s & x & Had & Hid & Hfa & Hs & Hx & HA & HS & Hc).
+  (* the archetype the oracle recorded for the handle is the one its id names *)
+  assert (a0 = a) as ->.
+  { destruct (r_arch _ _ _ HR i e a0 Hsi) as (ad0 & Had0 & Hid0).
+    eapply (NoDup_lookup _ a0 a (da_id ad)); [exact Hnd| |].
+    - rewrite list_lookup_fmap, Had0. cbn. congruence.
+    - by rewrite list_lookup_fmap, Had. }
+  (* the model's step, unfolded up to the lookup *)
+  cbn [step] in Hinv |- *. rewrite Hcw in Hinv |- *. cbn [get_href] in Hinv |- *. rewrite Hi in Hinv |- *. unfold make_key in Hinv |- *.
+  assert (raw_ok (snd e) = true) as Hraw by (unfold raw_ok, nonzero_new; destruct (N.eqb_spec (snd e) 0); done).
+  rewrite Hraw in Hinv |- *. cbn [negb] in Hinv |- *.
+  destruct (wd_archs d !! b) as [bd|] eqn:Hbd.
+  2: { exists st, [8%N], sst. split_and!; [done|done| |done]. cbn [spec_step]. rewrite Hcsw, Hsi. by rewrite ?Had, ?Hx. }
+  destruct (index_of c (arch_comps bd)) as [colb|] eqn:Hcolb.
+  2: { exists st, [6%N], sst. split_and!; [done|done| |done]. cbn [spec_step]. rewrite Hcsw, Hsi. by rewrite ?Had, ?Hx. }
+  assert (Hstep : forall (X : stepres), (match p with
+            | WFind | WFindB => X
+            | _ => match dispatch_arch d KEnt b (KAny e), w !! b with
+                   | None, _ => ret st [0%N]
+                   | Some h, Some s0 =>
+                       match resolve_for cfg KEnt s0 h with
+                       | ROk (Some i0) =>
+                           if negb (len s0 <=? length (ents s0)) || negb (forallb (fun x0 => len s0 <=? length x0) (cols s0)) then None
+                           else if negb (i0 <? len s0) then (match p with WView | WBorrow => None | _ => ret st [2%N; pcode PIndexOOB] end)
+                           else if is_zst d c then ret st [1%N]
+                           else match write_col s0 colb i0 v with Some s' => ret (set_world st (upd w b s')) [1%N] | None => None end
+                       | ROk None => ret st [0%N]
+                       | RPanic pp => ret st [2%N; pcode pp]
+                       | RUB => None
+                       end
+                   | _, None => ret st [8%N]
+                   end
+            end) =
+           match dispatch_arch d KEnt b (KAny e), w !! b with
+                   | None, _ => ret st [0%N]
+                   | Some h, Some s0 =>
+                       match resolve_for cfg KEnt s0 h with
+                       | ROk (Some i0) =>
+                           if negb (len s0 <=? length (ents s0)) || negb (forallb (fun x0 => len s0 <=? length x0) (cols s0)) then None
+                           else if negb (i0 <? len s0) then (match p with WView | WBorrow => None | _ => ret st [2%N; pcode PIndexOOB] end)
+                           else if is_zst d c then ret st [1%N]
+                           else match write_col s0 colb i0 v with Some s' => ret (set_world st (upd w b s')) [1%N] | None => None end
+                       | ROk None => ret st [0%N]
+                       | RPanic pp => ret st [2%N; pcode pp]
+                       | RUB => None
+                       end
+                   | _, None => ret st [8%N]
+                   end) by (by destruct p).
+  rewrite Hstep in Hinv |- *. clear Hstep.
+  cbn [dispatch_arch] in Hinv |- *. rewrite Hbd in Hinv |- *. change arch_dispatch_checks_id with true in Hinv |- *. cbn [id_ok] in Hinv |- *. unfold conv_ok in Hinv |- *.
+  destruct (N.eqb_spec (key_arch_id (fst e)) (da_id bd)) as [Hidb|Hidb].
+  2: { exists st, [0%N], sst. split_and!; [done|done| |done]. cbn [spec_step]. rewrite Hcsw, Hsi. by rewrite ?Had, ?Hx. }
+  assert (b = a) as -> by (assert (Hfb : find_arch (wd_archs d) (key_arch_id (fst e)) = Some b) by (by apply (find_arch_unique _ _ b bd)); congruence).
+  assert (bd = ad) as -> by congruence. rewrite Hs in Hinv |- *.
+  destruct HS as (HI & Haid & Hcols).
+  destruct (decide (e ∈ ents s)) as [Hin|Hnin].
+  2: { rewrite (resolve_for_unstored cfg s HI e Hk ltac:(congruence) Hc Hnin) in Hinv |- *.
+       exists st, [0%N], sst. split_and!; [done|done| |done]. cbn [spec_step]. rewrite Hcsw, Hsi. by rewrite ?Had, ?Hx. }
+  apply elem_of_list_lookup in Hin as [dd Hdd].
+  assert (Hd : dd < len s) by (rewrite <- (i_lents s HI); by eapply lookup_lt_Some).
+  rewrite (resolve_for_stored cfg s HI dd e Hdd) in Hinv |- *.
+  assert ((len s <=? length (ents s)) = true) as Hg1 by (apply Nat.leb_le; rewrite (i_lents s HI); lia).
+  rewrite Hg1, (forallb_cols_len (len s) (len s) (cols s) (i_lcols s HI)) in Hinv |- * by lia.
+  assert ((dd <? len s) = true) as Hg2 by (by apply Nat.ltb_lt). rewrite Hg2 in Hinv |- *. cbn [negb orb] in Hinv |- *.
+  destruct (abs_at_some s dd HI Hd) as (e' & row & Ha & He' & Hlr). rewrite Hdd in He'. injection He' as <-.
+  pose proof (a_b1 _ _ _ HA e row ltac:(by exists dd)) as Hfind.
+  destruct (is_zst d c) eqn:Hz.
+  - exists st, [1%N], sst. split_and!; [done|done| |done]. cbn [spec_step]. rewrite Hcsw, Hsi, Had, Hx, Hfind, Hcolb, Hz. done.
+  - assert (Hcl : colb < length (cols s)) by (rewrite Hcols; apply index_of_lt in Hcolb; unfold arch_comps in Hcolb; by rewrite fmap_length in Hcolb).
+    destruct (write_col_some s colb dd v HI Hcl Hd) as [s' Hw']. rewrite Hw' in Hinv |- *. cbn [ret] in Hinv.
+    set (st' := set_world st (upd w a s')) in *.
+    destruct (write_col_spec s colb dd v s' Hw') as (_ & _ & Hents & Hslots & Hlen' & Hcap' & _ & _ & Haid' & _).
+    pose proof (write_rows s colb dd v s' e row HI Hw' Hd Ha) as Hrows.
+    exists st', [1%N], (set_sarch sst sw a (set_val x e colb v)). split_and!; [done|done| |].
+    + cbn [spec_step]. rewrite Hcsw, Hsi, Had, Hx, Hfind, Hcolb, Hz. done.
+    + constructor; try done.
+      * exists (upd w a s'), (<[a := set_val x e colb v]> sw). split_and!; [cbn; by rewrite Hw, Hc0|cbn; by rewrite Hsw, Hsc0|].
+        intros a2 ad2 Had2. destruct (decide (a2 = a)) as [->|Hne].
+        -- rewrite Had in Had2. injection Had2 as <-. exists s', (set_val x e colb v). unfold upd.
+           split_and!; [apply list_lookup_insert; by eapply lookup_lt_Some|apply list_lookup_insert; by eapply lookup_lt_Some|].
+           assert (Hlive : sa_live (set_val x e colb v) = upd_sent e colb v <$> sa_live x) by done.
+           constructor.
+           ++ apply (a_sync _ _ _ HA).
+           ++ intros e1 r1 Hr. rewrite Hlive, find_sent_upd. apply Hrows in Hr as [[Hne Hr]|[-> ->]].
+              ** rewrite (a_b1 _ _ _ HA e1 r1 Hr). by rewrite decide_False.
+              ** rewrite Hfind. by rewrite decide_True.
+           ++ intros e1 He1. rewrite Hlive, find_sent_upd. rewrite Hents in He1. by rewrite (a_b2 _ _ _ HA e1 He1).
+           ++ rewrite Hlive, handles_upd. apply (a_nodup _ _ _ HA).
+           ++ rewrite Hlive, fmap_length, Hlen'. apply (a_len _ _ _ HA).
+           ++ cbn [st' set_world issued]. rewrite Haid'. eapply hist_same_bookkeeping; [apply (a_hist _ _ _ HA)|done|done|done|done].
+           ++ cbn. intros Hex. rewrite (a_cap _ _ _ HA Hex). congruence.
+        -- destruct (Harch a2 ad2 Had2) as (s2 & x2 & Hs2 & Hx2 & HA2 & _).
+           exists s2, x2. unfold upd.
+           split_and!; [etrans; [apply list_lookup_insert_ne; congruence|exact Hs2]|etrans; [apply list_lookup_insert_ne; congruence|exact Hx2]|done].
+      * apply (r_ids _ _ _ HR).
+      * apply (r_drop _ _ _ HR).
+      * apply (r_arch _ _ _ HR).
+Qed.
+
 (* ---------------------------------------------------------------- the initial world and whole histories *)
 
 Lemma new_world_fresh archs : forall caps w a s c, new_world archs caps = Ok w tt -> w !! a = Some s -> caps !! a = Some c ->
@@ -938,7 +1106,7 @@ Lemma rel_step cfg d qs st sst o : wrapping cfg = false -> wf_decl d -> NoDup (d
   exists st' obs sst', step cfg d qs st o = Some (st', obs) /\ obs <> [254%N] /\
     spec_step cfg d qs sst o obs = inr sst' /\ Rel d st' sst'.
 Proof.
-  intros Hwr Hwf Hnd HR Hl0. destruct o as [| | | |a v|a v|l k t r|l k t r|l k t r| | | | | | | | | | | | | |]; try done.
+  intros Hwr Hwf Hnd HR Hl0. destruct o as [| | | |a v|a v|l k t r|l k t r|l k t r|p b k t r c v| | | | | | | | | | | | |]; try done.
   - by apply rel_step_create.
   - by apply rel_step_createw.
   - destruct k; [|by destruct l]. destruct t; try (by destruct l). destruct r as [i| |]; try (by destruct l).
@@ -948,6 +1116,7 @@ Proof.
     exists st, obs, sst. done.
   - destruct k; [|by destruct l]. destruct t; try (by destruct l). destruct r as [i| |]; try (by destruct l).
     apply rel_step_todirect; try done. destruct l as [|b]; [done|]. cbn [l0_op] in Hl0. by apply Nat.ltb_lt.
+  - destruct k; [|done]. destruct t; try done. destruct r as [i| |]; try done. by apply rel_step_write.
 Qed.
 
 Lemma rel_run cfg d qs ops : wrapping cfg = false -> wf_decl d -> NoDup (da_id <$> wd_archs d) ->
